@@ -16,6 +16,7 @@ import PercevalModel.Lemmas.C11Heur
 import PercevalModel.Lemmas.C11Regroup
 import PercevalModel.Lemmas.C11Deep
 import PercevalModel.Lemmas.C11Chain
+import PercevalModel.Lemmas.C11Mixed
 import PercevalModel.Props.C01
 import PercevalModel.Num.GQ
 
@@ -910,6 +911,99 @@ example : exTree.WF 4 ∧ exTree.All Leaf.Real := by
   simp only [exTree, Its.All, Cmp.All, Leaf.Real, and_true]
   exact ⟨(exBS_unit _).toReal, trivial, (exBS_unit _).toReal⟩
 
+/-! ## L. MIXED histories: `inverse` / `copy` / `flatten` together with `simplify`, `decompose_perms`,
+`non_unitary_circuit()` — one history machine, one theorem
+
+`Model/C11Mixed.lean`: the state is the flattened view of the object (`for r, c in circuit`) with the class of every
+component (`PERM` with its `perm_vector`, numeric `PS` with its phase, anything else opaque); a history is a list of
+`MStep`s.  The list-rebuilding steps are the SAME functions the parts C, E, H, I speak about (`bubble`,
+`simplifyDet`, `regroup`/`blockMat`), applied to what the earlier steps left — nothing is read back.  `e` reads a
+phase as the unit `e^{iφ}`; the hypotheses on it are those of `simplify_sound` (`hadd`, `hdrop`) plus
+`e(-φ) = star (e φ)` for `PS.inverse`. -/
+
+/-- every step keeps the invariant (positive widths, components fit the `m` modes, `PERM`s hold permutations,
+beam splitters have real angles) — so any further step can be applied -/
+theorem mixed_step_invariant {P : Type} [CommRing R] [StarRing R] [PhaseAlg P] [PhaseNeg P] {I : R}
+    (e : P → R) (hadd : ∀ a b : P, e (PhaseAlg.add a b) = e a * e b)
+    (hdrop : ∀ a : P, PhaseAlg.canDrop a = true → e a = 1)
+    (m : ℕ) (s : MStep) (st : MS P R) (hok : st.OK m) : (s.apply I e m st).OK m := by
+  cases s with
+  | inv v h => exact MS.inv_OK m v h st hok
+  | copy => exact hok
+  | flat => exact hok
+  | simp d drops => exact (MS.simp_spec I e hadd hdrop m d drops st hok).1
+  | decomp mg => exact (MS.decomp_spec I e m st hok).1
+  | regroup => exact (MS.regroup_spec I e m st hok).1
+
+/-- the law of one step on ANY admissible list: `inverse(v, h)` gives the flipped / inverted matrix (with the
+`perm_vector` of every `PERM` recomputed from the flipped / inverted matrix), `simplify` (both display modes, every
+rounding outcome of every drop test, the real heuristic), `decompose_perms`, the regrouping into one block, `copy` and
+`flatten` keep the matrix -/
+theorem mixed_step_matrix {P : Type} [CommRing R] [StarRing R] [PhaseAlg P] [PhaseNeg P] {I : R}
+    (hI : ImagUnit I) (e : P → R) (hadd : ∀ a b : P, e (PhaseAlg.add a b) = e a * e b)
+    (hdrop : ∀ a : P, PhaseAlg.canDrop a = true → e a = 1)
+    (hneg : ∀ φ : P, e (PhaseNeg.neg φ) = star (e φ))
+    (m : ℕ) (s : MStep) (st : MS P R) (hok : st.OK m) :
+    MS.U I e m (s.apply I e m st) = s.law (MS.U I e m st) := by
+  cases s with
+  | inv v h => exact MS.inv_matrix hI e hneg m v h st hok
+  | copy => rfl
+  | flat => rfl
+  | simp d drops => exact (MS.simp_spec I e hadd hdrop m d drops st hok).2
+  | decomp mg => exact (MS.decomp_spec I e m st hok).2
+  | regroup => exact (MS.regroup_spec I e m st hok).2
+
+/-- **a whole mixed history has the composition of the laws of its steps**: any number of inversions (any flags),
+copies, flattenings, simplifications (any display mode, any rounding outcomes), permutation decompositions and
+regroupings, in ANY order — e.g. `c.inverse(h=True); d = simplify(c); e = decompose_perms(d); e.inverse(v=True)` gives
+`e` the flipped inverse of the matrix `c` had.  No step's result is read back: every step works on the list the model
+of the previous step produced. -/
+theorem mixed_chain_matrix {P : Type} [CommRing R] [StarRing R] [PhaseAlg P] [PhaseNeg P] {I : R}
+    (hI : ImagUnit I) (e : P → R) (hadd : ∀ a b : P, e (PhaseAlg.add a b) = e a * e b)
+    (hdrop : ∀ a : P, PhaseAlg.canDrop a = true → e a = 1)
+    (hneg : ∀ φ : P, e (PhaseNeg.neg φ) = star (e φ))
+    (m : ℕ) (steps : List MStep) (st : MS P R) (hok : st.OK m) :
+    (mchain I e m steps st).OK m ∧ MS.U I e m (mchain I e m steps st) = mlaw steps (MS.U I e m st) := by
+  induction steps generalizing st with
+  | nil => exact ⟨hok, rfl⟩
+  | cons s rest ih =>
+    have h1 := mixed_step_invariant (I := I) e hadd hdrop m s st hok
+    obtain ⟨i1, i2⟩ := ih (s.apply I e m st) h1
+    simp only [mchain, mlaw, List.foldl_cons] at i1 i2 ⊢
+    exact ⟨i1, by rw [i2, mixed_step_matrix hI e hadd hdrop hneg m s st hok]⟩
+
+/-- the flattened view denotes the circuit of the tree model: its matrix is the matrix `compute_unitary()` of the
+circuit holding the same components (`PERM` as the `Unitary` of its permutation matrix, `PS` with its unit phase) — the
+histories of part K and the mixed histories speak of the same matrix -/
+theorem mixed_tree_matrix {P : Type} [CommRing R] (I : R) (e : P → R) (m : ℕ) (st : MS P R) :
+    MS.U I e m st = (Its.ofList (st.cmps e)).U I m := by
+  rw [Its.U_ofList]; rfl
+
+/-- `decompose_perms` after `inverse`: the swaps are those of the bubble sort of the INVERTED permutation vector
+(`invert_permutation` for `h`, the mirrored vector for `v`) — the stale-view class of defects (a step reading a view
+of the component the previous step did not update) is a difference to this model -/
+instance : PhaseNeg GQ where
+  neg := star
+
+def exMixed : MS GQ GQ :=
+  [(0, .perm 3 [1, 2, 0]), (1, .leaf (.bs (exBS .Rx))), (0, .ps GQ.I), (0, .perm 3 [2, 0, 1])]
+
+example : (∀ a b : GQ, id (PhaseAlg.add a b) = id a * id b) ∧
+    (∀ a : GQ, PhaseAlg.canDrop a = true → id a = 1) ∧
+    (∀ φ : GQ, id (PhaseNeg.neg φ) = star (id φ)) ∧ exMixed.OK 3 ∧
+    (MS.inv 3 true true exMixed).map (·.1) = [0, 2, 0, 0] ∧
+    ((MS.inv 3 false true exMixed).decomp).map (·.1) = [1, 0, 0, 1, 0, 1] ∧
+    ((exMixed.simp 3 false []).map (·.1)) = [0, 2] := by
+  refine ⟨fun _ _ => rfl, ?_, fun _ => rfl, ?_, by decide +kernel, by decide +kernel, by decide +kernel⟩
+  · intro a h; simpa [PhaseAlg.canDrop] using h
+  · intro p hp
+    simp only [exMixed, List.mem_cons, List.not_mem_nil, or_false] at hp
+    rcases hp with rfl | rfl | rfl | rfl
+    · exact ⟨by decide, by decide, (by decide : IsPermList 3 [1, 2, 0])⟩
+    · exact ⟨by decide, by decide, (exBS_unit _).toReal⟩
+    · exact ⟨by decide, by decide, trivial⟩
+    · exact ⟨by decide, by decide, (by decide : IsPermList 3 [2, 0, 1])⟩
+
 /-! ## Still NOT proved (validated by the correspondence only)
 
 * the fields `Experiment.copy()` / `Processor.copy()` share with the original (shallow `copy.copy`: ports,
@@ -922,9 +1016,12 @@ example : exTree.WF 4 ∧ exTree.All Leaf.Real := by
   quantifier of the property, not reported by the check);
 * the floating-point drop test of `_simplify_PS` (an input of `simplify_sound`: both outcomes are allowed
   when the exact phase sum is a multiple of `2π`);
-* histories containing `simplify` / `decompose_perms` / `non_unitary_circuit()` as steps: each of them has its own
-  theorem on lists (parts C, D, E, H, I); the composition with tree-level steps goes through reading the rebuilt
-  list back (correspondence, family `chain`), there is no single theorem over mixed histories;
+* mixed histories (part L) speak of the FLATTENED view: that `inverse` / `copy` of a nested circuit followed by the
+  iteration `for r, c in circuit` gives the inverse / the copy of the flattened list is `flatten_matrix` + `circuit_inv`
+  on the matrix level only (the lists themselves are compared by the correspondence); `decompose_perms(merge=False)`
+  nests the swaps in a sub-circuit — invisible in the flattened view, not modelled; the regrouping step is the
+  all-unitary case (one block) — lists with loss channels / time delays have `regroup_denotation` but are not steps
+  of the history machine;
 * model = code (differential testing on every run). -/
 
 end PM.C11
